@@ -366,6 +366,7 @@ PROPS["C14"] = dict(
         dict(pkg=CT, run="^VerifC14_PlantedBetweenOpens$", replay="model", preempt=1, timeout=900, reach=["created", "reopened"]),
         # two batches with differing flags / permissions / MkdirAll (zero values are omitted on the wire; the link model decodes INTO the destination as gob does)
         dict(pkg=CT, run="^VerifC14_TwoBatches$", replay="model", preempt=0, timeout=900, reach=["both-batches"]),
+        dict(pkg=CT, run="^VerifC14_SymlinkBatch$", replay="model", preempt=0, timeout=900, reach=["batch-done"]),
     ],
 )
 
